@@ -490,5 +490,7 @@ RULE = ('seeded generator over Hamiltonian class x rank x tensor shape (sparse, 
         'column) x real/complex x Hermitian/not x scalar x symmetry mode x sector x path; exact regime '
         '(Gaussian-integer data). non-trivial: result has >= 2 non-zero determinants and a negative component')
 THEOREM_FILES = ['P_C01']
-NOT_PROVED = ['Knowles-Handy D-vector algorithm (Impl) = act_poly (Spec) is tied by correspondence only at this stage',
+NOT_PROVED = ['the Knowles-Handy folding identity (h1 -= h2[:,k,k,:]; -h2 with middle axes exchanged) is proved as an operator identity '
+              '(C01_kh_folding, C01_kh_folded_hamiltonian); the table-driven evaluation of the generators E_ik (D-vector loops) is tied '
+              'by correspondence only',
               'number-broken wavefunctions are compared in the sigma(B)-twisted determinant convention (see DESIGN.md, C01/C07)']
